@@ -1,12 +1,18 @@
 """C10 - tree view, text view, to_dict, to_json and pretty() describe the same changes.
 
 proof:           Views/ViewsModel.v + ViewsProofs.v -> Properties/C10.v
-correspondence:  ordered mode (the model of Diff/DiffModel.v): for each generated pair x threshold x
-                 verbose_level, ONE Coq case holding all presentations of the run:
+correspondence:  for each generated pair x {ordered (x threshold), ignore_order, ignore_order+report_repetition} x
+                 verbose_level, ONE Coq case sharing the model run between its components:
                    pretty() statements (split at the prefix), json.loads(to_json()) as a JSON-able
                    value (duplicate keys kept), to_dict(view_override='text') of the tree-view object,
                    to_dict(view_override='tree') of the text-view object;
-                 plus str()/repr()/JSON-able value of single generated values.
+                   at verbose 1: the delta view (view='_delta'), one or two real DiffLevel lines
+                   (path() in both forms on both sides on every object of the line), in
+                   report_repetition runs the guards aligned / sibinj;
+                   at verbose 2: to_json(default_mapping=M), M from 10 families, the convertors as
+                   tables of their recorded calls;
+                 plus str()/repr()/JSON-able value of single generated values and
+                 json_dumps(v, default_mapping=M).
 direct oracle:   the relational statement on the real objects, in ordered mode, ignore_order and
                  ignore_order+report_repetition, verbose 0/1/2, view text/tree:
                    chain walk (up/down, child relationships, identity with the sub-objects of the
@@ -14,12 +20,16 @@ direct oracle:   the relational statement on the real objects, in ordered mode, 
                    values) at verbose 2, the documented projection below); to_dict(view_override)
                    in both directions; to_json parses, same categories and paths, same on both
                    views; pretty(): one non-empty statement per level, naming the level's path,
-                   same on both views.
+                   same on both views; the delta view through five access paths vs the tree, category
+                   by category; pretty(prefix=callable) / to_json argument shapes; 11 option
+                   combinations (40% of the pairs); shared container objects.
 """
+import base64
 import copy
 import json
+import pickle
 
-from harness import core, values as V, diffcommon as D
+from harness import core, values as V, diffcommon as D, deltacommon as DC
 
 THEOREM_FILE = "Properties/C10.v"
 COQCHK = ["Properties.C10"]
@@ -33,8 +43,9 @@ RULE = ("pairs of nested values (depth <= 3, width <= 4; atoms None/bool/int/hal
         "(ordered mode also x threshold_to_diff_deeper {0.33, 0}). Non-trivial = non-empty tree; distinct by (t1, t2, mode, verbose).")
 TRUSTED = ["the JSON text encoder (json / orjson) and json.loads: the model stops at the JSON-able value that json.dumps walks; the check parses to_json() back",
            "difflib opcodes / unified_diff text / DeepHash of set members enter the ordered-diff model as oracles (as in C04)",
-           "the doubly linked DiffLevel chain is abstracted to its two key sequences and leaf objects: the up/down symmetry and the identity (`is`) of node objects with the inputs' sub-objects are checked by the chain walk on every generated case, not proved",
-           "ignore_order / report_repetition presentations are covered by the direct oracle and by the theorems that are parametric in the entry list; the correspondence cases are ordered-mode runs",
+           "the DiffLevel line is a zipper in Views/ViewsLevel.v (links, all_up/all_down, path() in both forms, create_deeper) tied by correspondence on real lines; the IDENTITY (`is`) of node objects with the inputs' sub-objects, copy() and branch_deeper are checked by the chain walk on every generated case, not proved",
+           "default_mapping convertors enter the model as tables of the calls they received (recorded on the run compared); isinstance for user classes as a table computed on one representative per class",
+           "the guards aligned / sibinj of C10_io_repetition_chains_aligned are evaluated in Coq on the inputs and compared with a mirror built on the implementation's DeepHash",
            "Python repr() of str for code points >= 256 (assumed printable) and of floats >= 1e16 is outside the model; generators stay below"]
 ASSUMPTIONS = ["verbose_level in {0,1,2}", "dict/set inputs satisfy Python's representation invariant; values are tree-shaped except that one set / frozenset object may sit at several places; no bytes dict keys (finding F5)"]
 
@@ -64,8 +75,13 @@ def k_json_bytes(case):
 def k_rep_chain(case):
     """report_repetition=True: below a list with repeated items the t2-side child relationship carries the
     t1 index (child_relationship_param2=None), and every index of a repeated item gets the first item's object"""
-    return (case.get("clause") == "chain" and case.get("mode") == "ignore_order+repetition" and case.get("repeats_at_link") is True
-            and set(case.get("problem_tags", ["?"])) <= {"t2-sub", "t2-noitem", "t2-eq-not-is", "t1-eq-not-is"})
+    return (case.get("clause") == "chain" and case.get("mode", "").startswith("ignore_order+repetition") and case.get("repeats_at_link") is True
+            and set(case.get("problem_tags", ["?"])) <= {"t2-sub", "t2-noitem", "t2-eq-not-is", "t1-eq-not-is"}
+            # the finding's mechanism, as proved of the model (C10_io_repetition_backed): only the INDEX is wrong - the node
+            # object is still an item of the parent container, and a wrong t2 link carries t1's parameter
+            and case.get("backed") is True and case.get("t2_param_is_t1_param") is True
+            # C10_io_repetition_chains_aligned: under the guards aligned + sibinj the chain is right; a failure there is new
+            and case.get("aligned_and_sibinj") is not True)
 
 
 MATCHERS = {"C10-to_json-non-utf8-bytes": k_json_bytes,
@@ -213,33 +229,47 @@ def text_pairs(res):
 NP = None
 
 
-def srepr(v):
-    """repr() that keeps the sharing of set / frozenset objects: a set object that occurs more than once is bound
-    by an assignment expression at its first occurrence ([0, (s0 := {1, 2}), s0]); eval() rebuilds the aliasing"""
-    count = {}
+def _containers(v, count):
+    if isinstance(v, (list, tuple, dict, set, frozenset)):
+        count[id(v)] = count.get(id(v), 0) + 1
+        if count[id(v)] > 1:
+            return
+    if isinstance(v, (list, tuple)):
+        for y in v:
+            _containers(y, count)
+    elif isinstance(v, dict):
+        for y in v.values():
+            _containers(y, count)
 
-    def scan(x):
-        if isinstance(x, (set, frozenset)):
-            count[id(x)] = count.get(id(x), 0) + 1
-        elif isinstance(x, (list, tuple)):
-            for y in x:
-                scan(y)
-        elif isinstance(x, dict):
-            for y in x.values():
-                scan(y)
-    scan(v)
+
+def has_sharing(*vals):
+    """some container object (list / tuple / dict / set / frozenset; the empty tuple is a singleton) occurs twice"""
+    for v in vals:
+        count = {}
+        _containers(v, count)
+        if any(n > 1 for i, n in count.items()):
+            return True
+    return False
+
+
+def srepr(v):
+    """repr() that keeps the sharing of container objects: an object that occurs more than once is bound by an
+    assignment expression at its first occurrence ([0, (s0 := {1, 2}), s0]); eval() rebuilds the aliasing"""
+    count = {}
+    _containers(v, count)
     if not any(n > 1 for n in count.values()):
         return repr(v)
     names = {}
 
     def go(x):
-        if isinstance(x, (set, frozenset)):
-            if count[id(x)] > 1:
-                if id(x) in names:
-                    return names[id(x)]
-                names[id(x)] = "s%d" % len(names)
-                return "(%s := %r)" % (names[id(x)], x)
-            return repr(x)
+        if isinstance(x, (list, tuple, dict, set, frozenset)) and count.get(id(x), 0) > 1 and x != ():
+            if id(x) in names:
+                return names[id(x)]
+            names[id(x)] = "s%d" % len(names)
+            return "(%s := %s)" % (names[id(x)], body(x))
+        return body(x)
+
+    def body(x):
         if isinstance(x, list):
             return "[" + ", ".join(go(y) for y in x) + "]"
         if isinstance(x, tuple):
@@ -264,6 +294,60 @@ def same(a, b):
 
 
 # ---------------------------------------------------------------------------
+# guards of C10_io_repetition_chains_aligned, mirrored on the implementation's own hashes
+# ---------------------------------------------------------------------------
+def item_hasher(a, b):
+    """x -> the hash _diff_iterable_with_deephash files an item under (DeepHash with the parameters of a
+    DeepDiff(ignore_order=True, report_repetition=True) run)"""
+    from deepdiff import DeepDiff, DeepHash
+    params = DeepDiff([1], [2], ignore_order=True, report_repetition=True).deephash_parameters
+    memo = {}
+
+    def h(x):
+        k = id(x)
+        if k not in memo:
+            memo[k] = (x, DeepHash(x, **params)[x])
+        return memo[k][1]
+    return h
+
+
+def aligned_py(t1, t2, h):
+    """mirror of ViewsRep.aligned"""
+    if type(t1) is type(t2) and isinstance(t1, (list, tuple)):
+        hx, hy = [h(x) for x in t1], [h(y) for y in t2]
+        if len(set(hy)) != len(hy):
+            return False
+        if any(q in hy and hx.count(q) > 1 for q in hx):
+            return False
+        return all(aligned_py(x, y, h) for x in t1 for y in t2)
+    if isinstance(t1, dict) and isinstance(t2, dict):
+        return all(aligned_py(v1, v2, h) for k1, v1 in t1.items() for k2, v2 in t2.items() if DC._py_eq(k1, k2))
+    return True
+
+
+def sibinj_py(v, h):
+    """mirror of ViewsRep.sibinj: items of one list with equal hashes are structurally equal"""
+    if isinstance(v, (list, tuple)):
+        hs = [h(x) for x in v]
+        for i in range(len(v)):
+            for j in range(i + 1, len(v)):
+                if hs[i] == hs[j] and V.to_coq(v[i]) != V.to_coq(v[j]):
+                    return False
+        return all(sibinj_py(x, h) for x in v)
+    if isinstance(v, dict):
+        return all(sibinj_py(x, h) for x in v.values())
+    return True
+
+
+def rep_guards(a, b):
+    try:
+        h = item_hasher(a, b)
+        return bool(aligned_py(a, b, h) and sibinj_py(a, h))
+    except Exception:
+        return None
+
+
+# ---------------------------------------------------------------------------
 # direct oracle
 # ---------------------------------------------------------------------------
 def has_repeats(seq):
@@ -274,15 +358,21 @@ def has_repeats(seq):
 
 
 def chain_problems(lv, a, b):
-    """walk one level chain; returns [(tag, text)], and whether a container at a
-    failing link holds repeated (==) items"""
+    """walk one level chain; returns ([(tag, text)], info): info["repeats"] = a container at a failing link holds
+    repeated (==) items; info["backed"] = at every failing link the node object still IS (identity) an item of the
+    parent container (what C10_io_repetition_backed proves of the model: only the index may be wrong);
+    info["t2_param_is_t1_param"] = at every failing t2 link the t2 relationship is missing or carries t1's parameter"""
     bad = []
-    repeats = False
+    info = {"repeats": False, "backed": True, "t2_param_is_t1_param": True}
     root = lv.all_up
     if root.t1 is not a or root.t2 is not b:
         bad.append(("root", "walking up does not reach a root holding the original t1 and t2"))
     if root.up is not None:
         bad.append(("root", "root has an up link"))
+    if lv.all_down is not lv or lv.down is not None:
+        bad.append(("updown", "the reported level is not its own all_down"))
+    if root.all_down is not lv or lv.all_up.all_up is not root:
+        bad.append(("updown", "all_up / all_down do not end at the ends of one line"))
     x, n = lv, 0
     while x.up is not None and n < 1000:
         if x.up.down is not x:
@@ -313,27 +403,180 @@ def chain_problems(lv, a, b):
             if use is None:
                 continue
             if isinstance(parent, (list, tuple, dict)):
+                members = list(parent.values()) if isinstance(parent, dict) else list(parent)
+                failed = None
                 try:
                     sub = parent[use.param]
                 except Exception:
-                    bad.append(("t%d-noitem" % side, "t%d: parent has no item %r" % (side, use.param)))
-                    continue
-                if sub is not child:
-                    if same(sub, child):
-                        bad.append(("t%d-eq-not-is" % side, "t%d: node object equals parent[%r] but is another object" % (side, use.param)))
-                    else:
-                        bad.append(("t%d-sub" % side, "t%d: node object is not parent[%r]" % (side, use.param)))
+                    failed = ("t%d-noitem" % side, "t%d: parent has no item %r" % (side, use.param))
+                else:
+                    if sub is not child:
+                        if same(sub, child):
+                            failed = ("t%d-eq-not-is" % side, "t%d: node object equals parent[%r] but is another object" % (side, use.param))
+                        else:
+                            failed = ("t%d-sub" % side, "t%d: node object is not parent[%r]" % (side, use.param))
+                if failed:
+                    bad.append(failed)
+                    if not any(m is child for m in members):
+                        info["backed"] = False
+                        bad.append(("unbacked", "t%d: node object is no item of the parent container at all" % side))
+                    if failed[0] in ("t2-sub", "t2-noitem") and not (r2 is None or (r1 is not None and r1.param == r2.param)):
+                        info["t2_param_is_t1_param"] = False
             elif isinstance(parent, (set, frozenset)):
                 if not any(m is child for m in parent):
                     bad.append(("t%d-sub" % side, "t%d: node object is not a member of the parent set" % side))
+                    info["backed"] = False
             else:
                 bad.append(("rel", "t%d: parent of a link is not a container" % side))
         if len(bad) > n0 and (has_repeats(cur.t1) or has_repeats(cur.t2)):
-            repeats = True
+            info["repeats"] = True
         cur = d
     if cur is not lv:
         bad.append(("updown", "the reported level is not the leaf of its chain"))
-    return bad, repeats
+    return bad, info
+
+
+def dsig(x):
+    """order-insensitive, type-tagged canonical form of a delta-view dict (Opcode tuples, sets, types included)"""
+    if isinstance(x, dict):
+        return ["D", sorted(([type(k).__name__, repr(k), dsig(v)] for k, v in x.items()), key=repr)]
+    if isinstance(x, (set, frozenset)):
+        return [type(x).__name__, sorted((dsig(y) for y in x), key=repr)]
+    if isinstance(x, (list, tuple)):
+        return [type(x).__name__, [dsig(y) for y in x]]
+    if isinstance(x, type):
+        return ["type", x.__name__]
+    return [type(x).__name__, repr(x)]
+
+
+DELTA_CATS = {"values_changed", "type_changes", "dictionary_item_added", "dictionary_item_removed", "iterable_item_added",
+              "iterable_item_removed", "iterable_item_moved", "set_item_added", "set_item_removed", "_iterable_opcodes",
+              "iterable_items_added_at_indexes", "iterable_items_removed_at_indexes"}
+
+
+def check_delta(bad, a, b, kw, verbose, dt, dr, tp, cfgv):
+    """the delta view (view='_delta', to_dict(view_override='_delta'), _to_delta_dict) carries the changes of the tree"""
+    from deepdiff import DeepDiff
+    try:
+        dv = DeepDiff(a, b, verbose_level=verbose, view="_delta", **kw)
+        shapes = {"view='_delta'": dict(dv), "own to_dict()": dv.to_dict(),
+                  "tree-view .to_dict(view_override='_delta')": dr.to_dict(view_override="_delta"),
+                  "text-view .to_dict(view_override='_delta')": dt.to_dict(view_override="_delta"),
+                  "_to_delta_dict(report_repetition_required=False)": dr._to_delta_dict(report_repetition_required=False)}
+    except Exception as e:
+        bad("delta view raised", repr(e), exception=type(e).__name__, **cfgv)
+        return
+    ref = dsig(shapes["view='_delta'"])
+    for name, d in shapes.items():
+        if dsig(d) != ref:
+            bad("delta view differs between its access paths", "%s: %r vs view='_delta': %r" % (name, d, shapes["view='_delta'"]), access=name, **cfgv)
+            return
+    d = shapes["view='_delta'"]
+    extra = sorted(set(d) - DELTA_CATS)
+    if extra:
+        bad("delta view has an unexpected category", repr(extra), **cfgv)
+    io = bool(kw.get("ignore_order"))
+    by_kind = {}
+    for kind, p, x, y, np_, lv in tp:
+        by_kind.setdefault(kind, []).append((p, x, y, np_, lv))
+
+    def levels(kind):
+        return by_kind.get(kind, [])
+
+    def some(kind, p, pred):
+        return any(q == p and pred(x, y, np_, lv) for q, x, y, np_, lv in levels(kind))
+
+    problems = []
+    for cat in ("values_changed", "type_changes"):
+        if sorted(d.get(cat, {})) != sorted({p for p, *_ in levels(cat)}):
+            problems.append("%s paths %r vs tree %r" % (cat, sorted(d.get(cat, {})), sorted({p for p, *_ in levels(cat)})))
+            continue
+        for p, ch in d.get(cat, {}).items():
+            if "old_value" in ch:
+                problems.append("%s %s carries old_value in the directed payload" % (cat, p))
+            if cat == "values_changed":
+                ok = some(cat, p, lambda x, y, np_, lv: same(ch.get("new_value"), y) and ch.get("new_path") == np_)
+            else:
+                ok = some(cat, p, lambda x, y, np_, lv: ch["old_type"] is type(x) and ch["new_type"] is type(y) and ch.get("new_path") == np_
+                          and ("new_value" not in ch or same(ch["new_value"], y)))
+            if not ok:
+                problems.append("%s %s: %r matches no level of the tree" % (cat, p, ch))
+    for cat in ("dictionary_item_added", "dictionary_item_removed"):
+        if sorted(d.get(cat, {})) != sorted({p for p, *_ in levels(cat)}):
+            problems.append("%s paths %r vs tree %r" % (cat, sorted(d.get(cat, {})), sorted({p for p, *_ in levels(cat)})))
+            continue
+        for p, v in d.get(cat, {}).items():
+            if not some(cat, p, lambda x, y, np_, lv: same(v, y if cat.endswith("added") else x)):
+                problems.append("%s %s: %r is not the level's object" % (cat, p, v))
+    if not io:
+        opc = set(d.get("_iterable_opcodes", {}))
+        for cat in ("iterable_item_added", "iterable_item_removed"):
+            got = d.get(cat, {})
+            for p, v in got.items():
+                if not some(cat, p, lambda x, y, np_, lv: same(v, y if cat.endswith("added") else x)):
+                    problems.append("%s %s: %r matches no level of the tree" % (cat, p, v))
+            for p, x, y, np_, lv in levels(cat):
+                if p not in got and lv.up.path(force="fake") not in opc:
+                    problems.append("%s %s of the tree is neither in the delta view nor covered by recorded opcodes" % (cat, p))
+        if "iterable_items_added_at_indexes" in d or "iterable_items_removed_at_indexes" in d:
+            problems.append("index maps in an ordered run")
+    else:
+        for cat, key in (("iterable_item_added", "iterable_items_added_at_indexes"), ("iterable_item_removed", "iterable_items_removed_at_indexes")):
+            want = {}
+            for p, x, y, np_, lv in levels(cat):
+                parent, param, _full = lv.path(force="fake", get_parent_too=True)
+                want.setdefault(parent, {}).setdefault(param, []).append(y if not is_np(y) else x)
+            if cat == "iterable_item_added":
+                for p, x, y, np_, lv in levels("repetition_change"):
+                    parent, _param, _full = lv.path(get_parent_too=True)
+                    for i in lv.additional["repetition"]["new_indexes"]:
+                        want.setdefault(parent, {}).setdefault(i, []).append(x)
+            got = d.get(key, {})
+            if sorted(got) != sorted(want) or any(sorted(got[q], key=repr) != sorted(want[q], key=repr) for q in got):
+                problems.append("%s index sets %r vs tree %r" % (key, {q: sorted(m, key=repr) for q, m in got.items()}, {q: sorted(m, key=repr) for q, m in want.items()}))
+                continue
+            for q, m in got.items():
+                for i, v in m.items():
+                    if not any(same(v, w) for w in want[q][i]):
+                        problems.append("%s %s[%r]: %r is not a level's object" % (key, q, i, v))
+        if "iterable_item_added" in d or "iterable_item_removed" in d or "_iterable_opcodes" in d:
+            problems.append("ordered categories in an ignore_order run")
+    for cat in ("set_item_added", "set_item_removed"):
+        want = {}
+        for p, x, y, np_, lv in levels(cat):
+            want.setdefault(lv.up.path(), []).append(y if cat.endswith("added") else x)
+        got = d.get(cat, {})
+        if sorted(got) != sorted(want) or any(sorted(map(repr, got[q])) != sorted(set(map(repr, want[q]))) for q in got):
+            problems.append("%s %r vs tree %r" % (cat, got, want))
+    if problems:
+        bad("delta view differs from the tree view", "; ".join(problems[:3]), problems=problems[:4], **cfgv)
+
+
+def check_api_shapes(bad, dt, dr, cfgv, in_table):
+    """the other accepted shapes of the presentation arguments give the same presentations"""
+    try:
+        plain = dt.pretty()
+        marked = dt.pretty(prefix=MARK)
+        called = dr.pretty(prefix=lambda diff: MARK if diff is dr else "WRONG-DIFF-ARGUMENT")
+        if called != marked or plain != marked.replace(MARK, ""):
+            bad("pretty(prefix=...) shapes disagree", "%r / %r / %r" % (plain, marked, called), **cfgv)
+    except Exception as e:
+        bad("pretty raised", repr(e), exception=type(e).__name__, **cfgv)
+    if not in_table:
+        return
+    try:
+        ref = dt.to_json()
+    except Exception:
+        return
+    try:
+        for name, txt in (("default_mapping={}", dt.to_json(default_mapping={})), ("force_use_builtin_json=True", dr.to_json(force_use_builtin_json=True)),
+                          ("indent=2", dt.to_json(indent=2)), ("default_mapping=None", dr.to_json(default_mapping=None))):
+            if json_obs(txt) != json_obs(ref):
+                bad("to_json argument shapes disagree", "%s: %s vs %s" % (name, txt, ref), shape=name, **cfgv)
+                break
+    except Exception as e:
+        bad("to_json raised", repr(e) + " (with an argument shape that plain to_json() accepts)", exception=type(e).__name__,
+            has_non_utf8_bytes=False, **cfgv)
 
 
 def check_mode(ctx, a, b, mode, kw, cfg):
@@ -343,7 +586,10 @@ def check_mode(ctx, a, b, mode, kw, cfg):
     runs = {}
 
     def bad(clause, what, **extra):
-        case = dict(t1=srepr(a), t2=srepr(b), mode=mode, clause=clause, **cfg)
+        case = dict(t1=srepr(a), t2=srepr(b), mode=mode, clause=clause, **{k: v for k, v in cfg.items() if k != "chains"})
+        if has_sharing(a, b):
+            case["shared_objects"] = True
+            case["pickle"] = base64.b64encode(pickle.dumps((a, b))).decode("ascii")
         case.update(extra)
         ctx.fail(case, "%s: %s" % (clause, what))
 
@@ -360,13 +606,16 @@ def check_mode(ctx, a, b, mode, kw, cfg):
         ctx.seen((repr(a), repr(b), mode, verbose, cfg.get("thr")), nontrivial=bool(tp))
         for kind, _p, _x, _y, _np, _lv in tp:
             ctx.count("levels:" + kind)
-        # ---- chains (both objects' trees) ----
-        for which, tree in (("tree-view", dr), ("text-view .tree", dt.tree)):
+        # ---- chains (both objects' trees); options such as ignore_string_case replace the compared objects,
+        #      so the identity clauses are stated for the plain modes only ----
+        for which, tree in ((("tree-view", dr), ("text-view .tree", dt.tree)) if cfg.get("chains", True) else ()):
             for kind, lv in tree_levels(tree):
-                pb, reps = chain_problems(lv, a, b)
+                pb, info = chain_problems(lv, a, b)
                 if pb:
+                    guard = rep_guards(a, b) if (kw.get("report_repetition") and set(kw) <= {"ignore_order", "report_repetition"}) else None
                     bad("chain", "%s %s %s: %s" % (which, kind, lv.path(force="fake"), "; ".join(t for _g, t in pb[:3])), report_type=kind,
-                        problems=[t for _g, t in pb[:4]], problem_tags=sorted({g for g, _t in pb}), repeats_at_link=reps, **cfgv)
+                        problems=[t for _g, t in pb[:4]], problem_tags=sorted({g for g, _t in pb}), repeats_at_link=info["repeats"],
+                        backed=info["backed"], t2_param_is_t1_param=info["t2_param_is_t1_param"], aligned_and_sibinj=guard, **cfgv)
                     break
         # ---- tree vs text ----
         txt = text_pairs(dt)
@@ -461,6 +710,10 @@ def check_mode(ctx, a, b, mode, kw, cfg):
                         break
         except Exception as e:
             bad("pretty raised", repr(e), exception=type(e).__name__, **cfgv)
+        # ---- delta view, other argument shapes ----
+        if verbose == 1:          # the delta payload does not depend on verbose_level
+            check_delta(bad, a, b, kw, verbose, dt, dr, tp, cfgv)
+            check_api_shapes(bad, dt, dr, cfgv, in_table)
     return runs
 
 
@@ -544,8 +797,192 @@ def tree_sig(tree):
 # ---------------------------------------------------------------------------
 # correspondence
 # ---------------------------------------------------------------------------
-def c10_case(a, b, thr, verbose, dt, dr):
-    """one Coq case: all presentations of an ordered-mode run"""
+HDR3 = ("From DD Require Import Base.PyStr Base.Value Path.PathModel Diff.Tree Diff.DiffModel Diff.TextView Diff.DiffShow "
+        "Hash.HashModel DiffIO.DiffIOModel DiffIO.DiffIOShow Delta.DeltaModel Delta.DeltaShow Delta.DeltaIO Delta.DeltaIOShow "
+        "Views.ViewsModel Views.ViewsShow Views.ViewsRep Views.ViewsDelta Views.ViewsJsonMap Views.ViewsLevel Views.ViewsShow3.")
+IO_HDR = HDR3
+IO_CFG = "(mkCfg false 33 100 true)"
+
+
+class NotInUniverse(Exception):
+    pass
+
+
+def hobj_coq(x):
+    from deepdiff.helper import SetOrdered
+    if isinstance(x, SetOrdered):
+        if not all(isinstance(q, str) for q in x):
+            raise NotInUniverse(x)
+        return "(HOrdered %s)" % core.coq_list(core.coq_pystr(q) for q in x)
+    if isinstance(x, frozenset):
+        return "(HFrozen %s)" % core.coq_list(V.atom_to_coq(q) for q in x)
+    if isinstance(x, set):
+        return "(HSet %s)" % core.coq_list(V.atom_to_coq(q) for q in x)
+    if isinstance(x, bytes):
+        return "(HBytes %s)" % core.coq_pystr(x)
+    if isinstance(x, type) and x in DC.TY_COQ:
+        return "(HType %s)" % DC.TY_COQ[x]
+    raise NotInUniverse(x)
+
+
+class Mapping:
+    """a default_mapping argument whose convertors record the calls they receive, so that the model can be handed each
+    convertor as the table of those calls (ViewsShow3.tbl_convf) and isinstance as a table (tbl_iso)"""
+
+    def __init__(self, spec):
+        from deepdiff.helper import SetOrdered
+        self.spec = spec                        # [(class, function)]
+        self.rows = [[] for _ in spec]
+        self.bad = False
+        self.reps = [set(), frozenset(), b"", int, SetOrdered()]     # hobj_cls 0..4
+        self.known = {set: "HKSet", frozenset: "HKFrozen", bytes: "HKBytes", type: "HKType", SetOrdered: "HKOrdered"}
+
+    def arg(self):
+        def wrap(i, f):
+            def g(x):
+                try:
+                    hx = hobj_coq(x)
+                except (NotInUniverse, TypeError, AssertionError):
+                    self.bad = True
+                    return f(x)
+                try:
+                    r = f(x)
+                except Exception:
+                    self.rows[i].append("(%s, None)" % hx)
+                    raise
+                try:
+                    self.rows[i].append("(%s, Some %s)" % (hx, V.to_coq(r)))
+                except (TypeError, AssertionError):
+                    self.bad = True
+                return r
+            return g
+        return {cls: wrap(i, f) for i, (cls, f) in enumerate(self.spec)}
+
+    def coq(self):
+        """(iso table, option table) after the call"""
+        iso, rows, n = [], [], 0
+        for i, (cls, _f) in enumerate(self.spec):
+            if cls in self.known:
+                key = self.known[cls]
+            else:
+                key = "(HKOther %d)" % n
+                iso.append("(%d%%nat, %s)" % (n, core.coq_list("%d%%nat" % j for j, o in enumerate(self.reps) if isinstance(o, cls))))
+                n += 1
+            rows.append("(%s, tbl_convf %s)" % (key, core.coq_list(self.rows[i])))
+        return core.coq_list(iso), "(Some %s)" % core.coq_list(rows)
+
+
+def mapping_specs(rng):
+    import collections.abc
+    import decimal
+    from deepdiff.helper import SetOrdered
+    fam = [
+        [(bytes, lambda x: x.hex())],
+        [(frozenset, lambda x: sorted(x, key=repr)), (bytes, lambda x: x.hex())],
+        [(set, lambda x: "set:" + repr(sorted(x, key=repr)))],
+        [(type, lambda t: "T:" + t.__name__), (decimal.Decimal, str)],
+        [(SetOrdered, lambda x: ["SetOrdered"] + list(x))],
+        [(object, lambda x: "OBJ")],
+        [(collections.abc.Set, lambda x: {"n": len(x)}), (bytes, lambda x: [x.hex(), {1}])],
+        [(bytes, lambda x: [x[:1], len(x)] if len(x) > 1 else x.hex()), (frozenset, lambda x: set(x))],
+        [(frozenset, lambda x: x)],
+        [],
+    ]
+    return rng.choice(fam)
+
+
+JSON_RAISES = (TypeError, UnicodeDecodeError, RecursionError, ValueError)
+
+
+def jsonmap_component(rng, d, rep, verbose, es_expr, rs_expr):
+    """(coq component, expected) for d.to_json(default_mapping=M), M drawn from mapping_specs; None when a recorded
+    call leaves the universe"""
+    m = Mapping(mapping_specs(rng))
+    try:
+        exp = json_obs(d.to_json(default_mapping=m.arg()))
+    except JSON_RAISES:
+        exp = "raise"
+    except NotInUniverse:
+        return None
+    if m.bad:
+        return None
+    iso, dm = m.coq()
+    return ("sx_c10_jsonmap %s %s %s %d %s %s" % (iso, dm, "true" if rep else "false", verbose, es_expr, rs_expr), exp)
+
+
+def delta_view_of(a, b, kw):
+    from deepdiff import DeepDiff
+    return dict(DeepDiff(a, b, view="_delta", **kw))
+
+
+def level_component(lv):
+    """(coq component, expected) for one real DiffLevel line: path() in both forms on both sides, called on EVERY
+    DiffLevel object of the line, and where the loops all_up / all_down end"""
+    chain, x = [], lv.all_up
+    while x is not None and len(chain) < 50:
+        chain.append(x)
+        x = x.down
+    k = [i for i, x in enumerate(chain) if x is lv][0]
+
+    def rel_coq(r):
+        if r is None:
+            return "None"
+        name = type(r).__name__
+        if name == "DictRelationship":
+            return "(Some (RItem CDict (PKey %s)))" % V.atom_to_coq(r.param)
+        if name == "SubscriptableIterableRelationship" and isinstance(r.param, int) and r.param >= 0:
+            return "(Some (RItem CSub (PIdx %d)))" % r.param
+        if name == "SetRelationship" and r.param is None:
+            return "(Some RMember)"
+        raise NotInUniverse(name)
+
+    def obj(o):
+        return "None" if is_np(o) else "(Some %s)" % V.to_coq(o)
+    nodes = ["(mkNode %s %s %s %s)" % (obj(x.t1), obj(x.t2), rel_coq(x.t1_child_rel), rel_coq(x.t2_child_rel)) for x in chain]
+    expr = "sx_line (mkLevel %s %s %s)" % (core.coq_list(reversed(nodes[:k])), nodes[k], core.coq_list(nodes[k + 1:]))
+
+    def plist(x, use_t2):
+        raw = x.path(output_format="list", use_t2=use_t2)
+        out, cur, i = [], chain[0], 0
+        while cur is not x and i < len(raw):
+            r = ((cur.t2_child_rel or cur.t1_child_rel) if use_t2 else (cur.t1_child_rel or cur.t2_child_rel))
+            if r is None:
+                out.append("EXTRA-ITEM")
+                break
+            if raw[i] is not r.param and raw[i] != r.param:
+                out.append("NOT-THE-PARAM")
+            elif type(r).__name__ == "DictRelationship":
+                out.append(["k", V.canon_atom(raw[i])])
+            elif type(r).__name__ == "SubscriptableIterableRelationship":
+                out.append(["x", raw[i]])
+            else:
+                out.append(None)
+            cur, i = cur.down, i + 1
+        if i < len(raw):
+            out.append("EXTRA-ITEM")
+        return out
+
+    def opt(p):
+        return None if p is None else ["Some", p]
+    exp = [[[plist(x, False), plist(x, True), opt(x.path()), opt(x.path(use_t2=True))] for x in chain],
+           k, chain[0].up is None, chain[-1].down is None, len(chain) - 1]
+    return (expr, exp)
+
+
+def pick_levels(rng, dr, n=2):
+    lvs = [lv for _k, lv in tree_levels(dr)]
+    rng.shuffle(lvs)
+    return lvs[:n]
+
+
+def assemble(run, parts, tag):
+    """one Coq case sharing the run between its components"""
+    return ("(let r := %s in SL %s)" % (run, core.coq_list(c for c, _e in parts)), [e for _c, e in parts], tag)
+
+
+def c10_case(rng, a, b, thr, verbose, dt, dr):
+    """one Coq case: all presentations of an ordered-mode run (+ at verbose 1 the delta view and two DiffLevel lines,
+    at verbose 2 to_json(default_mapping=M))"""
     try:
         js = json_obs(dt.to_json())
     except (TypeError, UnicodeDecodeError):
@@ -554,17 +991,27 @@ def c10_case(a, b, thr, verbose, dt, dr):
            js,
            ["text", D.text_obs(dr.to_dict(view_override="text"))],
            ["tree", D.tree_obs(dt.to_dict(view_override="tree"))]]
+    ops = D.coq_ops_table(D.opcode_table(a, b))
     run = "(run_diff hatom_simple (tbl_udiff %s) (tbl_ops %s) no_paths no_paths %s %s %s)" % (
-        D.coq_udiff_table(D.udiff_table(a, b)), D.coq_ops_table(D.opcode_table(a, b)),
-        D.coq_cfg(False, thr, True), V.to_coq(a), V.to_coq(b))
-    return ("sx_c10 %d %s" % (verbose, run), exp, {"t1": repr(a), "t2": repr(b), "thr": thr, "verbose": verbose})
+        D.coq_udiff_table(D.udiff_table(a, b)), ops, D.coq_cfg(False, thr, True), V.to_coq(a), V.to_coq(b))
+    parts = [("sx_c10 %d r" % verbose, exp)]
+    if verbose == 1:
+        cv = DC.conv_table(DC.type_change_pairs(dr))
+        dv = delta_view_of(a, b, {"threshold_to_diff_deeper": thr})
+        parts.append(("sx_c10_delta %s %s %s %s r" % (cv, ops, V.to_coq(a), V.to_coq(b)), ["delta", DC.delta_obs(dv)]))
+        for lv in pick_levels(rng, dr):
+            try:
+                parts.append(level_component(lv))
+            except NotInUniverse:
+                pass
+    if verbose == 2:
+        c = jsonmap_component(rng, dt, False, verbose, "(fst r)", "[]")
+        if c:
+            parts.append(c)
+    return assemble(run, parts, {"t1": repr(a), "t2": repr(b), "thr": thr, "verbose": verbose})
 
 
-IO_HDR = ("From DD Require Import Base.PyStr Base.Value Path.PathModel Diff.Tree Diff.DiffModel Diff.TextView Diff.DiffShow "
-          "Hash.HashModel DiffIO.DiffIOModel DiffIO.DiffIOShow Views.ViewsModel Views.ViewsShow.")
-
-
-def io_case(a, b, verbose, dt, dr):
+def io_case(rng, a, b, verbose, dt, dr):
     """one Coq case: all presentations of an ignore_order run (report_repetition=False), the
     model being fed the pairings the implementation used (recorded as in C05)"""
     from deepdiff import DeepDiff
@@ -583,9 +1030,23 @@ def io_case(a, b, verbose, dt, dr):
     exp = [core.sx_sorted(pretty_statements(dt)), js,
            ["text", D.text_obs(dr.to_dict(view_override="text"))],
            ["tree", D.tree_obs(dt.to_dict(view_override="tree"))]]
-    run = "(fst (run_diff_io hexhash (tbl_udiff %s) no_paths no_paths %s false (tbl_pairs %s) %s %s))" % (
+    run = "(run_diff_io hexhash (tbl_udiff %s) no_paths no_paths %s false (tbl_pairs %s) %s %s)" % (
         D.coq_udiff_table(D.udiff_table(a, b)), D.coq_cfg(False, 0.33), c05.coq_pairs_table(tbl), V.to_coq(a), V.to_coq(b))
-    return ("sx_c10_es %d %s" % (verbose, run), exp, {"t1": repr(a), "t2": repr(b), "mode": "ignore_order", "verbose": verbose})
+    parts = [("sx_c10_es %d (fst r)" % verbose, exp)]
+    if verbose == 1:
+        cv = DC.conv_table(DC.type_change_pairs(dr))
+        dv = delta_view_of(a, b, {"ignore_order": True})
+        parts.append(("sx_c10_delta_io %s false %s %s r" % (cv, V.to_coq(a), V.to_coq(b)), ["delta_io", DC.delta_io_obs(dv)]))
+        for lv in pick_levels(rng, dr, 1):
+            try:
+                parts.append(level_component(lv))
+            except NotInUniverse:
+                pass
+    if verbose == 2:
+        c = jsonmap_component(rng, dr, False, verbose, "(fst r)", "[]")
+        if c:
+            parts.append(c)
+    return assemble(run, parts, {"t1": repr(a), "t2": repr(b), "mode": "ignore_order", "verbose": verbose})
 
 
 def text_rep_obs(res):
@@ -600,9 +1061,10 @@ def text_rep_obs(res):
     return ["text", D.text_obs(rest), core.sx_sorted(reps)]
 
 
-def rep_case(a, b, verbose, dt, dr):
+def rep_case(rng, a, b, verbose, dt, dr):
     """one Coq case: all presentations of an ignore_order + report_repetition run, incl. the
-    repetition_change category of the text view / to_json (model: run_diff_io with rep = true)"""
+    repetition_change category of the text view / to_json (model: run_diff_io with rep = true); at verbose 1 also the
+    delta view, a DiffLevel line and the guards aligned / sibinj of C10_io_repetition_chains_aligned"""
     from deepdiff import DeepDiff
     from harness.props import c05
     with c05.Recording() as rec:
@@ -621,8 +1083,25 @@ def rep_case(a, b, verbose, dt, dr):
            ["tree", D.tree_obs(dt.to_dict(view_override="tree"))]]
     run = "(run_diff_io hexhash (tbl_udiff %s) no_paths no_paths %s true (tbl_pairs %s) %s %s)" % (
         D.coq_udiff_table(D.udiff_table(a, b)), D.coq_cfg(False, 0.33), c05.coq_pairs_table(tbl), V.to_coq(a), V.to_coq(b))
-    expr = "(let r := %s in sx_c10_rep %d (fst r) (map (fun x => (rpath x, rold x, rnew x)) (snd r)))" % (run, verbose)
-    return (expr, exp, {"t1": repr(a), "t2": repr(b), "mode": "ignore_order+repetition", "verbose": verbose})
+    rs = "(map (fun x => (rpath x, rold x, rnew x)) (snd r))"
+    parts = [("sx_c10_rep %d (fst r) %s" % (verbose, rs), exp)]
+    if verbose == 1:
+        cv = DC.conv_table(DC.type_change_pairs(dr))
+        dv = delta_view_of(a, b, {"ignore_order": True, "report_repetition": True})
+        parts.append(("sx_c10_delta_io %s true %s %s r" % (cv, V.to_coq(a), V.to_coq(b)), ["delta_io", DC.delta_io_obs(dv)]))
+        h = item_hasher(a, b)
+        parts.append(("SL [sx_bool (aligned hexhash %s %s %s); sx_bool (sibinj hexhash %s %s)]" % (IO_CFG, V.to_coq(a), V.to_coq(b), IO_CFG, V.to_coq(a)),
+                      [bool(aligned_py(a, b, h)), bool(sibinj_py(a, h))]))
+        for lv in pick_levels(rng, dr, 1):
+            try:
+                parts.append(level_component(lv))
+            except NotInUniverse:
+                pass
+    if verbose == 2:
+        c = jsonmap_component(rng, dt, True, verbose, "(fst r)", rs)
+        if c:
+            parts.append(c)
+    return assemble(run, parts, {"t1": repr(a), "t2": repr(b), "mode": "ignore_order+repetition", "verbose": verbose})
 
 
 def value_case(v):
@@ -631,6 +1110,20 @@ def value_case(v):
     except (TypeError, UnicodeDecodeError):
         js = "raise"
     return ("sx_strs %s" % V.to_coq(v), [str(v), repr(v), js], {"value": repr(v)})
+
+
+def dumps_case(rng, v):
+    """json_dumps(v, default_mapping=M) against ViewsJsonMap.walk with the recorded table"""
+    from deepdiff.serialization import json_dumps
+    m = Mapping(mapping_specs(rng))
+    try:
+        js = jcanon(json.loads(json_dumps(v, default_mapping=m.arg()), object_pairs_hook=Pairs))
+    except JSON_RAISES:
+        js = "raise"
+    if m.bad:
+        return None
+    iso, dm = m.coq()
+    return ("sx_c10_dumps %s %s %s" % (iso, dm, V.to_coq(v)), js, {"value": repr(v), "mapping": [c.__name__ for c, _f in m.spec]})
 
 
 def _dumps(v):
@@ -716,6 +1209,22 @@ def gen_pairs(ctx, n):
                 s1, s2 = {1, 2, "a"}, {2, 3, "b"}
             t1, t2 = V.plant(rng, rng.choice([0, 1, 2]), (s1, s2))
             ctx.count("gen:sets")
+        # one container object (list / dict) at two places of t1 (and sometimes of t2), the rest fresh
+        if rng.random() < 0.12:
+            t1, ok1 = V.share(rng, t1)
+            ok2 = False
+            if rng.random() < 0.4:
+                t2, ok2 = V.share(rng, t2)
+            if not (ok1 or ok2) and isinstance(t1, (list, dict, tuple)):
+                # no two containers of one type inside: the whole of t1 at two places of a fresh root
+                t2b = copy.deepcopy(t2)
+                if rng.random() < 0.5:
+                    t1, t2 = {"p": t1, "q": t1}, {"p": t2, "q": t2b}
+                else:
+                    t1, t2 = [t1, 0, t1], [t2, 0, t2b]
+                ok1 = True
+            if ok1 or ok2:
+                ctx.count("gen:+shared_container")
         out.append((t1, t2))
     return out
 
@@ -810,6 +1319,21 @@ FIXED_PAIRS = [
 MODES = (("ordered", {}), ("ignore_order", {"ignore_order": True}),
          ("ignore_order+repetition", {"ignore_order": True, "report_repetition": True}))
 
+# pairs of options at once (direct oracle only): the presentations must agree whatever tree the options produce
+OPTION_COMBOS = [
+    {"ignore_numeric_type_changes": True, "ignore_string_type_changes": True},
+    {"ignore_order": True, "report_repetition": True, "ignore_numeric_type_changes": True},
+    {"ignore_order": True, "significant_digits": 0, "ignore_string_case": True},
+    {"exclude_types": [bytes], "ignore_type_in_groups": [(int, float)]},
+    {"zip_ordered_iterables": True, "threshold_to_diff_deeper": 0},
+    {"ignore_order": True, "cutoff_distance_for_pairs": 0.6, "cutoff_intersection_for_pairs": 0.3},
+    {"ignore_order": True, "max_passes": 1, "ignore_private_variables": False},
+    {"ignore_order": True, "exclude_regex_paths": [r"\[1\]$"]},
+    {"ignore_nan_inequality": True, "math_epsilon": 0.6, "threshold_to_diff_deeper": 0.9},
+    {"ignore_order": True, "report_repetition": True, "cache_size": 50, "cache_tuning_sample_size": 10},
+    {"exclude_paths": ["root[0]", "root['a']"], "ignore_string_case": True},
+]
+
 
 def one_pair(ctx, t1, t2, cases, corr=True, iocases=None, repcases=None):
     a, b = copy.deepcopy(t1), copy.deepcopy(t2)
@@ -823,11 +1347,16 @@ def one_pair(ctx, t1, t2, cases, corr=True, iocases=None, repcases=None):
             cfg["thr"] = thr
         runs = check_mode(ctx, a, b, mode, kw, cfg)
         check_history(ctx, a, b, mode, runs, cfg)     # before the correspondence cases: they must agree with the model afterwards too
+        if mode == "ordered" and ctx.rng.random() < 0.4:
+            okw = dict(ctx.rng.choice(OPTION_COMBOS))
+            oname = ("ignore_order+repetition+options" if okw.get("report_repetition") else "options") + ":" + ",".join(sorted(okw))
+            check_mode(ctx, a, b, oname, okw, {"chains": False})
+            ctx.count("option_combo_runs")
         if mode == "ordered" and corr:
             if D.in_model_guard(a, b) and repr_in_model(a, b):
                 for verbose, (dt, dr) in runs.items():
                     try:
-                        cases.append(c10_case(a, b, thr, verbose, dt, dr))
+                        cases.append(c10_case(ctx.rng, a, b, thr, verbose, dt, dr))
                     except Exception as e:
                         ctx.break_("correspondence", {"name": "c10", "case": {"t1": repr(a), "t2": repr(b), "thr": thr, "verbose": verbose},
                                                       "error": "could not observe the presentations: " + repr(e)})
@@ -836,7 +1365,7 @@ def one_pair(ctx, t1, t2, cases, corr=True, iocases=None, repcases=None):
         if mode == "ignore_order" and corr and iocases is not None and D.in_model_guard(a, b) and repr_in_model(a, b) and not non_utf8_bytes(a, b):
             for verbose, (dt, dr) in runs.items():
                 try:
-                    c = io_case(a, b, verbose, dt, dr)
+                    c = io_case(ctx.rng, a, b, verbose, dt, dr)
                 except Exception as e:
                     ctx.break_("correspondence", {"name": "c10io", "case": {"t1": repr(a), "t2": repr(b), "verbose": verbose},
                                                   "error": "could not observe the presentations: " + repr(e)})
@@ -848,7 +1377,7 @@ def one_pair(ctx, t1, t2, cases, corr=True, iocases=None, repcases=None):
         if mode == "ignore_order+repetition" and corr and repcases is not None and D.in_model_guard(a, b) and repr_in_model(a, b) and not non_utf8_bytes(a, b):
             for verbose, (dt, dr) in runs.items():
                 try:
-                    c = rep_case(a, b, verbose, dt, dr)
+                    c = rep_case(ctx.rng, a, b, verbose, dt, dr)
                 except Exception as e:
                     ctx.break_("correspondence", {"name": "c10rep", "case": {"t1": repr(a), "t2": repr(b), "verbose": verbose},
                                                   "error": "could not observe the presentations: " + repr(e)})
@@ -889,27 +1418,47 @@ def replay_witnesses(ctx):
 
 
 def run(ctx):
-    pairs = FIXED_PAIRS + shared_fixed_pairs() + gen_pairs(ctx, 4500 if ctx.thorough else 400)
+    import os
+    npairs = int(os.environ.get("C10_DEV_PAIRS", "0")) or (3600 if ctx.thorough else 400)     # C10_DEV_PAIRS: development only
+    pairs = FIXED_PAIRS + shared_fixed_pairs() + gen_pairs(ctx, npairs)
     cases, iocases, repcases = [], [], []
+    import sys
+    import time
+    t0 = time.time()
     for t1, t2 in pairs:
         one_pair(ctx, t1, t2, cases, iocases=iocases, repcases=repcases)
+    if os.environ.get("C10_DEV_TIMES"):
+        print("C10 oracle+case building: %.1fs" % (time.time() - t0), file=sys.stderr)
     for c in cases[:3]:
         ctx.sample(c[2])
-    ctx.coq_cases("c10", HDR, cases, shard=60, label="all_presentations_ordered")
-    ctx.coq_cases("c10io", IO_HDR, iocases, shard=60, label="all_presentations_ignore_order")
-    ctx.coq_cases("c10rep", IO_HDR, repcases, shard=60, label="all_presentations_ignore_order_repetition")
+    ctx.coq_cases("c10", HDR3, cases, shard=100, label="all_presentations_ordered")
+    ctx.coq_cases("c10io", IO_HDR, iocases, shard=100, label="all_presentations_ignore_order")
+    ctx.coq_cases("c10rep", IO_HDR, repcases, shard=100, label="all_presentations_ignore_order_repetition")
     vcases = []
     for _ in range(3000 if ctx.thorough else 400):
         v = gen_val(ctx.rng, 3, 3)
         if repr_in_model(v):
             vcases.append(value_case(v))
     ctx.coq_cases("c10v", HDR, vcases, shard=150, label="str_repr_jsonable")
+    mcases = []
+    for _ in range(1500 if ctx.thorough else 250):
+        v = gen_val(ctx.rng, 3, 3)
+        if repr_in_model(v):
+            c = dumps_case(ctx.rng, v)
+            if c:
+                mcases.append(c)
+    ctx.coq_cases("c10m", HDR3, mcases, shard=125, label="json_dumps_default_mapping")
+    if os.environ.get("C10_DEV_TIMES"):
+        print("C10 all: %.1fs" % (time.time() - t0), file=sys.stderr)
     replay_witnesses(ctx)
 
 
 def replay(ctx, data):
     case = data.get("case", {})
-    if "t1" in case:
+    if "pickle" in case:
+        t1, t2 = pickle.loads(base64.b64decode(case["pickle"]))
+        one_pair(ctx, t1, t2, [], corr=False)
+    elif "t1" in case:
         t1, t2 = eval(case["t1"]), eval(case["t2"])
         one_pair(ctx, t1, t2, [], corr=False)
     else:
